@@ -52,7 +52,7 @@ struct TaskSim : Harness {
   std::vector<Task *> T; int cur = -1; ucontext_t main_uc; Rng srng; std::string policy; int slice = 10, slice_left = 0; uint64_t switches = 0, yields = 0;
   RunCtx *C = nullptr; bool interleaved = false;
   static TaskSim *me;
-  static Layout layout_for(int i) { uint64_t R = 0x300000000000ULL + (uint64_t) i * 0x40000000000ULL; return Layout{R, R + 0x10000000000ULL, R + 0x20000000000ULL, R + 0x30000000000ULL, 1ull << 40}; }
+  static Layout layout_for(int i) { uint64_t R = 0x300000000000ULL + (uint64_t) i * 0x40000000000ULL; return Layout{R, R + 0x10000000000ULL, R + 0x20012340000ULL, R + 0x30012340000ULL, (1ull << 40) - 0x12340000ULL}; }
 
   static void task_entry(int idx) {
     TaskSim *s = me; Task *t = s->T[(size_t) idx];
